@@ -583,22 +583,27 @@ fn main() {
 
     for (li, (mc, ma)) in limits.iter().copied().enumerate() {
         for (pi, (retry, plan)) in plans.iter().enumerate() {
-            if !thorough && (li + pi) % 2 == 1 && pi > 1 {
+            // quick: the plain plan plus one rotating pending plan per limits pair
+            if !thorough && pi != 0 && pi != 1 + li % (plans.len() - 1) {
                 continue;
             }
             let m_r = (ma as u64).saturating_sub(12).min(65535).max(1);
             let m_w = (mc as u64).saturating_sub(20).max(1);
             // bound the number of transactions per op so tiny limits stay fast
-            let max_txn: u64 = if thorough { 6000 } else { 1500 };
+            let max_txn: u64 = if thorough { 1500 } else { 300 };
             let cap_r = (m_r * max_txn).min(cap_total);
             let cap_w = (m_w * max_txn).min(cap_total);
-            let mut ops = vec![Op::Open, Op::Retry(*retry), Op::Dev { mc, ma, ms: (pi % 2) as u16, plan: plan.clone() }];
-            let ks: Vec<u64> = if thorough { vec![1, 2, 3, 4, 7, 16, 64] } else { vec![1, 2, 3, 5] };
+            let mut ops = vec![Op::Open, Op::Retry(*retry), Op::Dev { mc, ma, ms: 0, plan: plan.clone() }];
+            let ks: Vec<u64> = if thorough { vec![1, 2, 3, 4, 7, 16, 64] } else { vec![1, 2, 3] };
             let mut rl = lengths_around(m_r, &ks, cap_r);
             let mut wl = lengths_around(m_w, &ks, cap_w);
-            wl.extend(lengths_around(65527, &[1, 2, 3], cap_w));
-            rl.extend(lengths_around(65535, &[1, 2, 3], cap_r));
-            for _ in 0..(if thorough { 6 } else { 2 }) {
+            if pi == 0 || thorough {
+                // the 65527-byte write block and the 65535-byte read chunk ceiling
+                let bk: Vec<u64> = if thorough { vec![1, 2, 3] } else { vec![1, 2] };
+                wl.extend(lengths_around(65527, &bk, cap_w));
+                rl.extend(lengths_around(65535, &bk, cap_r));
+            }
+            for _ in 0..(if thorough { 4 } else { 2 }) {
                 rl.push(rng.below(cap_r + 1) as usize);
                 wl.push(rng.below(cap_w + 1) as usize);
             }
@@ -606,12 +611,16 @@ fn main() {
                 rl.push(cap_r as usize);
                 wl.push(cap_w as usize);
             }
+            rl.sort();
+            rl.dedup();
+            wl.sort();
+            wl.dedup();
             let mut k = 0;
             while k < rl.len() || k < wl.len() {
                 if let Some(n) = wl.get(k) {
                     let addr = pick_addr(&mut rng, *n);
                     ops.push(Op::Write { addr, n: *n, pat: rng.below(200) });
-                    if rng.chance(1, 3) {
+                    if rng.chance(1, 4) {
                         ops.push(Op::Read { addr, n: *n });
                     }
                 }
@@ -632,9 +641,20 @@ fn main() {
             };
             run_session(&mut rep, &spec);
         }
-        if rep.evaluations > 3000 {
+        if rep.evaluations > 1500 {
             rep.flush_model(&args.camdrv);
         }
+    }
+
+    // pending acks that announce a non-zero timeout (the host really sleeps): one short session
+    {
+        let mut ops = vec![Op::Open, Op::Retry(4), Op::Dev { mc: 64, ma: 64, ms: 1, plan: vec![3, 0, 1] }];
+        for n in [0usize, 1, 51, 52, 53, 104, 300] {
+            ops.push(Op::Write { addr: 0x7000, n, pat: n as u64 });
+            ops.push(Op::Read { addr: 0x7000, n });
+        }
+        let spec = SessionSpec { seed: 9, sbrm_addr: 0x1_0000, adv_cmd: 64, adv_ack: 64, resp_ms: 2, ops, model: true };
+        run_session(&mut rep, &spec);
     }
 
     // request-id wrap: start near 65535 by doing many one-byte reads, then mixed ops across the wrap
